@@ -13,6 +13,7 @@ func init() {
 	vRegister("VH_C08_decode_pair", VH_C08_decode_pair)
 	vRegister("VH_C08_transformers", VH_C08_transformers)
 	vRegister("VH_C03_gsm7_decoder", VH_C03_gsm7_decoder)
+	vRegister("VH_C08_decoder_septets", VH_C08_decoder_septets)
 }
 
 // 3GPP TS 23.038 6.2.1 default alphabet (transcribed independently of the library's tables);
@@ -256,5 +257,38 @@ func VH_C03_gsm7_decoder() {
 			vAssert("C03.gsm7.decoder.same-text", vEqBytes(out, ref))
 		}
 	}
+	vReach("end")
+}
+
+// The decoding transformers on packed/unpacked images of every septet vector over the part of
+// the alphabet whose characters are single ASCII octets (unpacked) / over the alphabet
+// {LF, CR, '1', '?', 'a'} (packed): they agree with Decode.
+func VH_C08_decoder_septets() {
+	n := vParam("n")
+	packed := vParam("packed") == 1
+	s := vBytes("s", n)
+	for i := 0; i < n; i++ {
+		c := s[i]
+		// a small branch-relevant alphabet keeps the query tractable: CR (the filler value), LF,
+		// '1' (< 0x40), 'a' (>= 0x40), '?' (0x3f), and for the unpacked form the whole ASCII-valued part
+		ok := vOr(vOr(c == 0x0A, c == 0x0D), vOr(c == 0x31, vOr(c == 0x61, c == 0x3F)))
+		if !packed {
+			ok = vOr(ok, vOr(vAnd(c >= 0x20, c <= 0x23), vOr(vAnd(c >= 0x25, c <= 0x3F), vOr(vAnd(c >= 0x41, c <= 0x5A), vAnd(c >= 0x61, c <= 0x7A)))))
+		}
+		vAssume(ok)
+	}
+	if packed && n > 0 && n%8 == 0 {
+		vAssume(s[n-1] != 0x0d) // end-of-message carve-out of the statement
+	}
+	want, werr := Decode(s)
+	vAssume(werr == nil)
+	img := s
+	if packed {
+		img = Pack(s)
+	}
+	got, _, err := transform.Bytes(GSM7(packed).NewDecoder(), img)
+	vObserve("got", got)
+	vAssert("C08.decoder.no-error", err == nil)
+	vAssert("C08.decoder.agrees-with-Decode", vEqBytes(got, want))
 	vReach("end")
 }
